@@ -10,6 +10,8 @@ CONSTANTS
   EmitMode = "state"
   HistViews = FALSE
   OrderedBegin = TRUE
+  MaxOpen = 9
+  NoClose = FALSE
 VIEW View0
 INVARIANTS TypeOK RingConsistent InOrder NoDirty PrefixRule CompleteKF AtomicKF CleanupSafe SeekConsistent SeekNoDirty EmitState
 PROPERTIES Stable
